@@ -130,11 +130,9 @@ theorem hits_ids (fault : Option EventId) (es : List Event) :
   simp [C02.hits, hitsIds, List.any_map, Function.comp_def]
 
 theorem participates_toAttr (kw : Bool) (fields : List Field) :
-    (fields.map (toAttr kw)).filter participates = fields.map (toAttr kw) := by
-  apply List.filter_eq_self.2
-  intro a ha
-  obtain ⟨f, _, rfl⟩ := List.mem_map.1 ha
-  simp [participates, toAttr]
+    (fields.map (toAttr kw)).filter participates = (fields.filter Field.participates).map (toAttr kw) := by
+  rw [List.filter_map]
+  congr 1
 
 theorem validatorEvents_ids_gen (kw : Bool) (g : Attr → List Val) (fields : List Field) :
     ((fields.map (toAttr kw)).flatMap (fun a =>
@@ -148,10 +146,11 @@ theorem validatorEvents_ids_gen (kw : Bool) (g : Attr → List Val) (fields : Li
     simp [toAttr, C02.ev, valId, Function.comp_def]
 
 theorem validatorEvents_ids (kw : Bool) (c : Call) (fields : List Field) :
-    (C02.validatorEventsOf (fields.map (toAttr kw)) c).map (·.id) = validatorPlan fields := by
+    (C02.validatorEventsOf (fields.map (toAttr kw)) c).map (·.id)
+      = validatorPlan (fields.filter Field.participates) := by
   unfold C02.validatorEventsOf
   rw [participates_toAttr]
-  exact validatorEvents_ids_gen kw _ fields
+  exact validatorEvents_ids_gen kw _ _
 
 /-- the callbacks of a construction that are not validators and run before them: the pre-init hook, then
     per field its factory (argument left out) and its converter — as the initializer specification lists them -/
@@ -167,7 +166,8 @@ def afterPart (cls : Cls) : List EventId :=
 /-- the shape of a construction: hooks, factories and converters do not depend on the switch; the
     validators sit between them and the post-init hook, iff enabled -/
 theorem constructPlan_struct (cls : Cls) (run : Bool) :
-    constructPlan cls run = beforePart cls ++ (if run then validatorPlan cls.fields else []) ++ afterPart cls := by
+    constructPlan cls run = beforePart cls ++
+      (if run then validatorPlan (cls.fields.filter Field.participates) else []) ++ afterPart cls := by
   unfold constructPlan C02.expectedTrace beforePart afterPart
   have h1 : (initCase cls run none).eff.attrs = cls.fields.map (toAttr cls.kwOnly) := rfl
   have h1' : (initCase cls true none).eff.attrs = cls.fields.map (toAttr cls.kwOnly) := rfl
@@ -222,36 +222,50 @@ theorem lookup_none_of_not_mem (n : String) (l : List (String × Val)) (h : ∀ 
     simp only [lookup, beq_iff_eq, hk, if_false]
     exact ih (fun kv hkv => h kv (List.mem_cons_of_mem _ hkv))
 
-theorem passed_factory_none (cls : Cls) (hn : (cls.fields.map (·.name)).Nodup) (f : Field) (hf : f ∈ cls.fields)
-    (hfac : f.factory = true) (ps : List Param) :
+theorem passed_defaulted_none (cls : Cls) (hn : (cls.fields.map (·.name)).Nodup) (f : Field) (hf : f ∈ cls.fields)
+    (hnp : f.passed = false) (ps : List Param) :
     passed ps (initCase cls true none).call f.name = none := by
   unfold passed
   have hpos : (initCase cls true none).call.pos = [] := rfl
   simp only [hpos, List.zip_nil_right, lookup]
   apply lookup_none_of_not_mem
   intro kv hkv
-  have hkw : (initCase cls true none).call.kw = (cls.fields.filter (!·.factory)).map (fun f => (f.name, "v." ++ f.name)) := rfl
+  have hkw : (initCase cls true none).call.kw = (cls.fields.filter Field.passed).map (fun f => (f.name, "v." ++ f.name)) := rfl
   rw [hkw] at hkv
   obtain ⟨g, hg, rfl⟩ := List.mem_map.1 hkv
   have hg' := List.mem_filter.1 hg
   intro hname
   have : g = f := nodup_map_inj (·.name) cls.fields hn g hg'.1 f hf hname
   subst this
-  simp [hfac] at hg'
+  simp [hnp] at hg'
+
+/-- what one field contributes before the validators: its factory if it has one (the argument is never
+    passed for a defaulted parameter; an `init=False` field has no parameter), then its converter -/
+def fieldCallbacks (f : Field) : List EventId :=
+  (match f.dflt with
+   | .factory _ => [factoryId f]
+   | _ => []) ++ (if f.conv then [convId f] else [])
 
 theorem attrEvents_explicit (cls : Cls) (hn : (cls.fields.map (·.name)).Nodup) (f : Field) (hf : f ∈ cls.fields)
     (A : List Attr) :
-    (C02.attrEvents A (initCase cls true none).call (toAttr cls.kwOnly f)).map (·.id)
-      = (if f.factory then [factoryId f] else []) ++ (if f.conv then [convId f] else []) := by
-  unfold C02.attrEvents
-  cases hfac : f.factory
-  · cases hc : f.conv <;> simp [toAttr, hfac, hc, C02.ev, convId, convEventsOf] <;> split <;> simp
-  · have hp := passed_factory_none cls hn f hf hfac (params A)
-    cases hc : f.conv <;> simp [toAttr, hfac, hc, C02.ev, convId, factoryId, hp, convEventsOf]
+    (C02.attrEvents A (initCase cls true none).call (toAttr cls.kwOnly f)).map (·.id) = fieldCallbacks f := by
+  unfold C02.attrEvents fieldCallbacks
+  cases hi : f.init
+  · cases hd : f.dflt <;> cases hc : f.conv <;>
+      simp [toAttr, hi, hd, hc, C02.ev, convId, factoryId, convEventsOf]
+  · cases hd : f.dflt with
+    | none =>
+      cases hc : f.conv <;> simp [toAttr, hi, hd, hc, C02.ev, convId, convEventsOf] <;> split <;> simp
+    | value =>
+      have hp := passed_defaulted_none cls hn f hf (by simp [Field.passed, hd]) (params A)
+      cases hc : f.conv <;> simp [toAttr, hi, hd, hc, C02.ev, convId, hp, convEventsOf]
+    | factory ts =>
+      have hp := passed_defaulted_none cls hn f hf (by simp [Field.passed, hd]) (params A)
+      cases hc : f.conv <;> simp [toAttr, hi, hd, hc, C02.ev, convId, factoryId, hp, convEventsOf]
 
 theorem beforePart_explicit (cls : Cls) (hn : (cls.fields.map (·.name)).Nodup) :
     beforePart cls = (if cls.pre = .none then [] else [preId]) ++
-      cls.fields.flatMap (fun f => (if f.factory then [factoryId f] else []) ++ (if f.conv then [convId f] else [])) := by
+      (cls.fields.filter Field.participates).flatMap fieldCallbacks := by
   unfold beforePart
   have h1 : (initCase cls true none).eff.attrs = cls.fields.map (toAttr cls.kwOnly) := rfl
   rw [h1, participates_toAttr, List.map_append]
@@ -263,7 +277,7 @@ theorem beforePart_explicit (cls : Cls) (hn : (cls.fields.map (·.name)).Nodup) 
   · rw [List.map_flatMap, List.flatMap_map]
     apply flatMap_congr'
     intro f hf
-    exact attrEvents_explicit cls hn f hf _
+    exact attrEvents_explicit cls hn f (List.mem_filter.1 hf).1 _
 
 theorem expectedTrace_ids (cls : Cls) (run : Bool) (fault : Option EventId) :
     (C02.expectedTrace (initCase cls run fault).eff (initCase cls run fault).call).map (·.id)
@@ -649,5 +663,41 @@ theorem specGo_model (c : Case) (hI : ∀ cls ∈ c.classes, C02.wf (initCase cl
         cases hst : st.stack with
         | nil => exact absurd hst (hx rfl)
         | cons p rest => simpa [hst] using hb
+
+/-- observations depend on the case only through its classes and the faulty callback -/
+theorem stepObs_congr (c c' : Case) (h1 : c.classes = c'.classes) (h2 : c.fault = c'.fault) (st st' : St) (op : Op) :
+    stepObs c st st' op = stepObs c' st st' op := by
+  cases op <;> simp only [stepObs, h1, h2]
+
+theorem runOpsWith_congr (stf : St → Op → St) (c c' : Case) (h1 : c.classes = c'.classes) (h2 : c.fault = c'.fault)
+    (st : St) (l : List Op) : runOpsWith stf c st l = runOpsWith stf c' st l := by
+  induction l generalizing st with
+  | nil => rfl
+  | cons x xs ih => simp only [runOpsWith, stepObs_congr c c' h1 h2, ih]
+
+/-- the nested observations of the model satisfy the nested part of the specification -/
+theorem nestedOk_model (c : Case) (hI : ∀ cls ∈ c.classes, C02.wf (initCase cls true c.fault) = true)
+    (hb : (bal 0 c.body).isSome = true) (hok : ∀ op ∈ c.body, opOk c op = true) :
+    ∀ (ops : List Op) (st : St),
+      nestedOk c st.run ops (runOpsWith stepSt c st ops) (runNestedWith stepSt c st ops) = true := by
+  intro ops
+  induction ops with
+  | nil => intro st; rfl
+  | cons op ops ih =>
+    intro st
+    simp only [runOpsWith, runNestedWith, nestedOk, Bool.and_eq_true]
+    refine ⟨?_, ?_⟩
+    · unfold nestedOf
+      cases hp : c.probe with
+      | none => rfl
+      | some p =>
+        have hev : (stepObs c st (stepSt st op) op).events = (stepObs c st st op).events := by
+          cases op <;> simp only [stepObs, mkStep] <;> (repeat' split) <;> rfl
+        simp only [List.length_replicate, hev, beq_self_eq_true, Bool.true_and, List.all_eq_true]
+        intro inv hinv
+        rw [List.eq_of_mem_replicate hinv]
+        exact specGo_model c hI c.body { run := st.run, stack := [] } [] rfl hb hok
+    · rw [(stepObs_views c st (stepSt st op) op).1, toBool_ofBool]
+      exact ih _
 
 end Attrs.C20
